@@ -3,7 +3,7 @@
 # applies a candidate change to the repository under test, runs the named checks, and ALWAYS restores the repository.
 # The repository is /repo unless VERIF_REPO names a scratch checkout (used for a second, parallel evaluation lane:
 # a git worktree of /verif plus a git worktree of /repo, so that nothing touches /repo or /verif/sim/Cargo.toml).
-patch=$1; tier=$2; shift 2
+patch=$(readlink -f "$1"); tier=$2; shift 2
 here="$(cd "$(dirname "$0")" && pwd)"
 repo=${VERIF_REPO:-/repo}
 cd $repo || exit 2
